@@ -136,6 +136,7 @@ def run(ck):
         if b2.getvalue() != data:
             ck.fail("a refused append changed the file", inp)
     rescale_layer(ck, 60 if q else 1500)
+    refused_inside_session_layer(ck, 20 if q else 400)
     compressed_layer(ck, 25 if q else 500)
     out = ck.driver(lines)
     bad = None
@@ -201,6 +202,47 @@ def compressed_layer(ck, n_cases):
     lazrs.CHUNK_SIZE = 5
 
 
+def refused_inside_session_layer(ck, n_cases):
+    """a with-session that appends valid chunks and is then left by the exception of a refused record (another point
+    format): the file is the one-shot file of the original and the chunks that were accepted"""
+    import laspy
+    for ci in range(n_cases):
+        minor, fmt = ck.rng.choice(fio.PAIRS)
+        n0 = ck.rng.choice([0, 2, 5])
+        evlrs = fio.rand_vlrs(ck.rng, True, 2) if minor >= 4 and ck.rng.random() < 0.7 else None
+        las = fio.make_las(ck.rng, minor, fmt, n0, evlrs=evlrs)
+        size = las.header.point_format.size
+        good = [fio.raw_records(ck.rng, size, ck.rng.choice([1, 3])) for _ in range(ck.rng.choice([1, 2]))]
+        ofmt = ck.rng.choice([x for x in range(11) if x != fmt])
+        foreign = laspy.PackedPointRecord.zeros(2, laspy.PointFormat(ofmt))
+        inp = {"kind": "refused_inside_session", "minor": minor, "fmt": fmt, "n0": n0, "accepted": [len(g) // size for g in good], "foreign_fmt": ofmt,
+               "evlrs": None if evlrs is None else len(evlrs)}
+        ck.case(("refused_in_session", minor, fmt, n0, tuple(inp["accepted"]), ofmt, las.points.array.tobytes()), nontrivial=True)
+        ck.count("refused_inside_session")
+        b0 = io.BytesIO()
+        las.write(b0)
+        buf = io.BytesIO(b0.getvalue())
+        raised = None
+        try:
+            with laspy.open(buf, mode="a", closefd=False) as ap:
+                for g in good:
+                    ap.append_points(rec_of(las, g))
+                ap.append_points(foreign)
+        except Exception as e:
+            raised = type(e).__name__
+        if raised is None:
+            ck.fail("a record of another point format was accepted by the appender", inp)
+            continue
+        whole = fio.make_las(ck.rng, minor, fmt, 0, raw=las.points.array.tobytes() + b"".join(good), evlrs=evlrs)
+        ref = io.BytesIO()
+        whole.write(ref)
+        if buf.getvalue() != ref.getvalue():
+            a, b = buf.getvalue(), ref.getvalue()
+            k0 = next((i for i in range(min(len(a), len(b))) if a[i] != b[i]), min(len(a), len(b)))
+            ck.fail(f"session left by the refusal of a foreign record after {inp['accepted']} accepted points: the file differs from the one-shot file of "
+                    f"what was accepted (first difference at byte {k0}; sizes {len(a)}/{len(b)})", inp)
+
+
 def rescale_layer(ck, n_cases):
     """scale-aware records whose scaling differs from the file's keep their real-world coordinates"""
     import laspy
@@ -263,3 +305,13 @@ def rescale_layer(ck, n_cases):
                 break
         if (rec.array.tobytes(), tuple(rec.scales.tolist()), tuple(rec.offsets.tolist())) != snap:
             ck.fail("appending modified the caller's records", inp)
+        # the header describes what was stored (extrema recomputed from the records read back, same formula)
+        hb = back.header
+        if len(back.points):
+            for ax, d in enumerate("XYZ"):
+                col = back.points.array[d]
+                emax, emin = float(col.max() * hb.scales[ax] + hb.offsets[ax]), float(col.min() * hb.scales[ax] + hb.offsets[ax])
+                if fio.dbits(hb.maxs[ax]) != fio.dbits(emax) or fio.dbits(hb.mins[ax]) != fio.dbits(emin):
+                    ck.fail(f"after appending scale-aware records: header extrema on axis {ax} [{float(hb.mins[ax])}, {float(hb.maxs[ax])}] != "
+                            f"those of the stored records [{emin}, {emax}]", dict(inp, finding_key="C06:rescale:extrema"))
+                    break
